@@ -11,8 +11,8 @@ import vlib
 from vlib import Report, run_tlc, tlc_must_pass, extract_lines, write_ndjson, read_ndjson, xv_json, workdir
 
 PID = "C14"
-FRAGS = {"quick": [("grow", 3), ("zoo", 2), ("do", 2)],
-         "thorough": [("grow", 4), ("zoo", 3), ("do", 3), ("zoo2", 4), ("mix", 3), ("def", 4)]}
+FRAGS = {"quick": [("grow", 3), ("metalim", 5), ("zoo", 2), ("do", 2)],
+         "thorough": [("grow", 4), ("metalim", 7), ("zoo", 3), ("do", 3), ("zoo2", 4), ("mix", 3), ("def", 4)]}
 RANDOM = {"quick": (1500, 30), "thorough": (20000, 40)}
 CFG = """SPECIFICATION Spec
 CONSTANTS
@@ -35,7 +35,7 @@ def run(tier, seed):
     for frag, budget in FRAGS[tier]:
         res = run_tlc("mc/MC_C14", CFG % (frag, budget), wd, name=f"MC_C14_{frag}", timeout=3000)
         if res["violated"]:
-            vlib.log("\n".join(res["out"].splitlines()[-60:]))
+            vlib.log(vlib.tlc_tail(res))
             raise vlib.ToolError(f"the design violates a limit invariant on fragment {frag} (specification-level)")
         tlc_must_pass(res, f"MC_C14 {frag}")
         states += res["distinct"]; trans += res["generated"]
